@@ -1,5 +1,6 @@
 """Self-tests of the simulator itself (DESIGN.md section 9).
 
+  selftest sensitivity [ID|name…]   every seeded change under seeded/ must make the recorded checks report a VIOLATION
   selftest determinism <PROP> [n]   event-log digests must not depend on: repetition in one interpreter,
                                     position in the process (first vs after other runs), interpreter
                                     instance, number of workers / block layout; and verdicts must not
@@ -65,7 +66,49 @@ def determinism(prop, n=400, tier='quick'):
     return ok
 
 
+def sensitivity(only=None):
+    """Apply every confirmed seeded change (seeded/<id>/patch.diff) to a scratch worktree of /repo outside /repo and
+    /verif, run the checks that are recorded as catching it, and require a VIOLATION.  The scratch tree is removed afterwards."""
+    import glob
+    import subprocess
+    import tempfile
+    root = M.ROOT
+    scratch = tempfile.mkdtemp(prefix='verif-sens-')
+    wt = os.path.join(scratch, 'repo')
+    subprocess.check_call(['git', '-C', '/repo', 'worktree', 'add', '-q', '--detach', wt, 'HEAD'])
+    ok = True
+    try:
+        for meta_path in sorted(glob.glob(os.path.join(root, 'seeded', '*', 'meta.json'))):
+            meta = json.load(open(meta_path))
+            name = os.path.basename(os.path.dirname(meta_path))
+            if only and name not in only and meta['property'] not in only:
+                continue
+            if not meta.get('confirmed') or not meta.get('caught_by'):
+                print('sensitivity %s: skipped (confirmed=%s caught_by=%s)' % (name, meta.get('confirmed'), meta.get('caught_by')))
+                continue
+            subprocess.check_call(['git', '-C', wt, 'checkout', '-q', '--', '.'])
+            ap = subprocess.run(['git', '-C', wt, 'apply', os.path.join(os.path.dirname(meta_path), 'patch.diff')])
+            if ap.returncode != 0:
+                print('sensitivity %s: patch no longer applies to /repo HEAD' % name)
+                ok = False
+                continue
+            for cid in meta['caught_by']:
+                env = dict(os.environ, VERIF_REPO=wt, VERIF_MAX_MINIMISE='1')
+                r = subprocess.run([os.path.join(root, 'check'), cid, 'quick'], env=env, stdout=subprocess.PIPE, stderr=subprocess.STDOUT)
+                caught = r.returncode == 1 and b'VIOLATION property=' in r.stdout
+                print('sensitivity %s vs %s: %s' % (name, cid, 'caught' if caught else 'MISSED (exit %d)' % r.returncode))
+                ok = ok and caught
+    finally:
+        subprocess.call(['git', '-C', '/repo', 'worktree', 'remove', '--force', wt])
+        import shutil
+        shutil.rmtree(scratch, ignore_errors=True)
+    print('sensitivity: %s' % ('OK' if ok else 'FAILED'))
+    return ok
+
+
 def main(argv):
+    if argv and argv[0] == 'sensitivity':
+        return 0 if sensitivity(set(a for a in argv[1:]) or None) else 2
     if not argv or argv[0] != 'determinism':
         print(__doc__)
         return 2
